@@ -28,6 +28,36 @@ func init() { workers["eval"] = workerEval }
 var workerGoroutines atomic.Pointer[sync.Map] // goroutine ids that executed slow() in the current case
 var workerTicks atomic.Int64
 
+// forced arrival order of the current case (flag `sched=<base>:<v1>,<v2>,…`)
+type workerSched struct {
+	base int64
+	turn map[int64]int
+	pos  atomic.Int64
+}
+
+var workerSchedule atomic.Pointer[workerSched]
+
+var workerBarrierGen, workerBarrierN atomic.Int64
+
+func parseSched(flags string) *workerSched {
+	for _, f := range strings.Split(flags, ";") {
+		if rest, ok := strings.CutPrefix(f, "sched="); ok {
+			bs, order, ok := strings.Cut(rest, ":")
+			if !ok {
+				return nil
+			}
+			g := &workerSched{turn: map[int64]int{}}
+			g.base, _ = strconv.ParseInt(bs, 10, 64)
+			for k, x := range strings.Split(order, ",") {
+				v, _ := strconv.ParseInt(x, 10, 64)
+				g.turn[v] = k
+			}
+			return g
+		}
+	}
+	return nil
+}
+
 func goid() int64 {
 	var buf [64]byte
 	n := runtime.Stack(buf[:], false)
@@ -54,6 +84,51 @@ func newHostFG(optimize bool) *value.FunctionGenerator {
 		return v, nil
 	})
 	add("quick", false, func(v value.Value) (value.Value, error) { return v, nil })
+	// barrier(x): waits until four callers have arrived (at most 20 ms) and lets them go on at the same moment: what the
+	// closures of a parallel stage do next happens simultaneously on several workers
+	add("barrier", false, func(v value.Value) (value.Value, error) {
+		if m := workerGoroutines.Load(); m != nil {
+			m.Store(goid(), true)
+		}
+		gen := workerBarrierGen.Load()
+		if workerBarrierN.Add(1)%4 == 0 {
+			workerBarrierGen.Add(1)
+			return v, nil
+		}
+		// spin (no yield): the waiters sit on their own processors and leave within nanoseconds of each other
+		start := time.Now()
+		for i := 0; workerBarrierGen.Load() == gen; i++ {
+			if i%1024 == 0 && time.Since(start) > 20*time.Millisecond {
+				break
+			}
+		}
+		return v, nil
+	})
+	// gate(x): slow like slow(x) below the base of the current schedule (so that the stage goes parallel); from the
+	// base on it returns in the order the schedule prescribes (best effort: it waits at most 40 ms for its turn),
+	// which forces the order in which the workers' results arrive at the collector
+	add("gate", false, func(v value.Value) (value.Value, error) {
+		g := workerSchedule.Load()
+		i, ok := v.(value.Int)
+		if m := workerGoroutines.Load(); m != nil {
+			m.Store(goid(), true)
+		}
+		if g == nil || !ok || int64(i) < g.base {
+			time.Sleep(300 * time.Microsecond)
+			return v, nil
+		}
+		turn, ok := g.turn[int64(i)]
+		if !ok {
+			return v, nil
+		}
+		start := time.Now()
+		for g.pos.Load() != int64(turn) && time.Since(start) < 40*time.Millisecond {
+			time.Sleep(20 * time.Microsecond)
+		}
+		time.Sleep(200 * time.Microsecond) // the one released before has time to hand its result over
+		g.pos.Store(int64(turn) + 1)
+		return v, nil
+	})
 	add("boom", false, func(v value.Value) (value.Value, error) { panic("host function panics") })
 	add("fail", false, func(v value.Value) (value.Value, error) { return nil, fmt.Errorf("host function fails") })
 	add("tick", false, func(v value.Value) (value.Value, error) { workerTicks.Add(1); return v, nil })
@@ -79,9 +154,12 @@ func workerEval(args []string) {
 		seen := &sync.Map{}
 		workerGoroutines.Store(seen) // a read-ahead element of the previous case may still be running: it keeps its own map
 		before := workerTicks.Load()
+		workerSchedule.Store(parseSched(flags))
 		var res string
 		if strings.Contains(flags, "newstack") {
 			res = evalOutcomeNewStack(fg, f[3], a)
+		} else if strings.Contains(flags, "withmap") {
+			res = evalOutcomeWithMap(fg, f[3], a)
 		} else {
 			res = evalOutcome(fg, f[3], []string{"a"}, []value.Value{value.Int(a)})
 		}
@@ -235,6 +313,29 @@ func evalOutcomeNewStack(fg *value.FunctionGenerator, src string, a int) (out st
 		return "GENERR"
 	}
 	v, err := f(funcGen.NewStack[value.Value](value.Int(a)))
+	if err != nil {
+		return "ERR"
+	}
+	s, err := canonValue(v)
+	if err != nil {
+		return "ERR"
+	}
+	return "OK " + s
+}
+
+// evalOutcomeWithMap uses the second entry point: GenerateWithMap(src, "m") evaluated on the map {a: a}
+// (the free identifier a of the program is the attribute m.a).
+func evalOutcomeWithMap(fg *value.FunctionGenerator, src string, a int) (out string) {
+	defer func() {
+		if r := recover(); r != nil {
+			out = fmt.Sprintf("PANIC %v", r)
+		}
+	}()
+	f, _, err := fg.GenerateWithMap(src, "m")
+	if err != nil {
+		return "GENERR"
+	}
+	v, err := f.Eval(buildMap([]string{"a"}, []value.Value{value.Int(a)}, 0))
 	if err != nil {
 		return "ERR"
 	}
